@@ -1,0 +1,202 @@
+//go:build verif
+
+// Verification shim for properties C04 (responses are decoded to what the server said) and
+// C05 (no bytes from the network can crash the application).
+// Add-only, compiled only with -tags verif: thin exported wrappers so that the harness module
+// (/verif/harness/cmd/c04, cmd/c05) can reach the unexported response parsers without copying them.
+// Nothing here recovers from panics: a panic raised by the wrapped code reaches the harness.
+
+package gocql
+
+import (
+	"io"
+	"net"
+)
+
+// VerifC04Header is frameHeader with exported fields.
+type VerifC04Header struct {
+	Version byte
+	Flags   byte
+	Stream  int
+	Op      byte
+	Length  int
+}
+
+// VerifC04ReadHeader is readHeader.
+func VerifC04ReadHeader(r io.Reader, p []byte) (VerifC04Header, error) {
+	h, err := readHeader(r, p)
+	return VerifC04Header{Version: byte(h.version), Flags: h.flags, Stream: h.stream, Op: byte(h.op), Length: h.length}, err
+}
+
+// VerifC04Framer wraps a framer.
+type VerifC04Framer struct {
+	f *framer
+}
+
+// VerifC04NewFramer is newFramer.
+func VerifC04NewFramer(compressor Compressor, version byte) *VerifC04Framer {
+	return &VerifC04Framer{f: newFramer(compressor, version)}
+}
+
+// ReadFrame is framer.readFrame.
+func (v *VerifC04Framer) ReadFrame(r io.Reader, h VerifC04Header) error {
+	head := &frameHeader{version: protoVersion(h.Version), flags: h.Flags, stream: h.Stream, op: frameOp(h.Op), length: h.Length}
+	return v.f.readFrame(r, head)
+}
+
+// Rest returns the part of the body not consumed so far (framer.buf).
+func (v *VerifC04Framer) Rest() []byte { return v.f.buf }
+
+// TraceID, Warnings, CustomPayload: what the flag-driven prefixes left in the framer.
+func (v *VerifC04Framer) TraceID() []byte { return v.f.traceID }
+func (v *VerifC04Framer) Warnings() []string {
+	if v.f.header == nil {
+		return nil
+	}
+	return v.f.header.warnings
+}
+func (v *VerifC04Framer) CustomPayload() map[string][]byte { return v.f.customPayload }
+
+// VerifC04Meta is resultMetadata / preparedMetadata with exported fields.
+type VerifC04Meta struct {
+	Flags          int
+	PagingState    []byte
+	Columns        []ColumnInfo
+	ColCount       int
+	ActualColCount int
+	// prepared metadata only
+	PkeyColumns []int
+	Keyspace    string
+	Table       string
+}
+
+func verifC04Meta(m resultMetadata) VerifC04Meta {
+	return VerifC04Meta{Flags: m.flags, PagingState: m.pagingState, Columns: m.columns, ColCount: m.colCount, ActualColCount: m.actualColCount}
+}
+
+// VerifC04Frame is the content of a parsed response frame, whatever its Go type.
+type VerifC04Frame struct {
+	Kind string // ready authenticate auth_challenge auth_success supported void rows keyspace prepared
+	// sc_keyspace sc_table sc_type sc_function sc_aggregate topology status error other
+	raw frame
+
+	Class      string              // authenticate
+	Data       []byte              // auth_challenge, auth_success (nil = null)
+	Supported  map[string][]string // supported
+	Keyspace   string              // keyspace, sc_*
+	Change     string              // sc_*, topology, status
+	Object     string              // sc_table, sc_type; name of sc_function / sc_aggregate
+	Args       []string            // sc_function, sc_aggregate
+	Host       net.IP              // topology, status
+	Port       int
+	Meta       VerifC04Meta // rows
+	NumRows    int
+	PreparedID []byte // prepared
+	ReqMeta    VerifC04Meta
+	RespMeta   VerifC04Meta
+	Err        error // error: errorFrame (RequestError) or one of the exported *RequestErr... types
+	ErrCode    int
+	ErrMessage string
+}
+
+// ParseFrame is framer.parseFrame followed by a field-by-field copy of the frame it returned.
+func (v *VerifC04Framer) ParseFrame() (VerifC04Frame, error) {
+	fr, err := v.f.parseFrame()
+	if err != nil {
+		return VerifC04Frame{}, err
+	}
+	out := VerifC04Frame{raw: fr}
+	switch x := fr.(type) {
+	case *readyFrame:
+		out.Kind = "ready"
+	case *authenticateFrame:
+		out.Kind, out.Class = "authenticate", x.class
+	case *authChallengeFrame:
+		out.Kind, out.Data = "auth_challenge", x.data
+	case *authSuccessFrame:
+		out.Kind, out.Data = "auth_success", x.data
+	case *supportedFrame:
+		out.Kind, out.Supported = "supported", x.supported
+	case *resultVoidFrame:
+		out.Kind = "void"
+	case *resultRowsFrame:
+		out.Kind, out.Meta, out.NumRows = "rows", verifC04Meta(x.meta), x.numRows
+	case *resultKeyspaceFrame:
+		out.Kind, out.Keyspace = "keyspace", x.keyspace
+	case *resultPreparedFrame:
+		out.Kind, out.PreparedID = "prepared", x.preparedID
+		out.ReqMeta = verifC04Meta(x.reqMeta.resultMetadata)
+		out.ReqMeta.PkeyColumns, out.ReqMeta.Keyspace, out.ReqMeta.Table = x.reqMeta.pkeyColumns, x.reqMeta.keyspace, x.reqMeta.table
+		out.RespMeta = verifC04Meta(x.respMeta)
+	case *schemaChangeKeyspace:
+		out.Kind, out.Change, out.Keyspace = "sc_keyspace", x.change, x.keyspace
+	case *schemaChangeTable:
+		out.Kind, out.Change, out.Keyspace, out.Object = "sc_table", x.change, x.keyspace, x.object
+	case *schemaChangeType:
+		out.Kind, out.Change, out.Keyspace, out.Object = "sc_type", x.change, x.keyspace, x.object
+	case *schemaChangeFunction:
+		out.Kind, out.Change, out.Keyspace, out.Object, out.Args = "sc_function", x.change, x.keyspace, x.name, x.args
+	case *schemaChangeAggregate:
+		out.Kind, out.Change, out.Keyspace, out.Object, out.Args = "sc_aggregate", x.change, x.keyspace, x.name, x.args
+	case *topologyChangeEventFrame:
+		out.Kind, out.Change, out.Host, out.Port = "topology", x.change, x.host, x.port
+	case *statusChangeEventFrame:
+		out.Kind, out.Change, out.Host, out.Port = "status", x.change, x.host, x.port
+	case RequestError:
+		out.Kind, out.Err, out.ErrCode, out.ErrMessage = "error", x, x.Code(), x.Message()
+	default:
+		out.Kind = "other"
+	}
+	return out, nil
+}
+
+// Iter builds the Iter that Conn.executeQuery builds for a rows frame (conn.go, case *resultRowsFrame,
+// without skip-metadata and without paging).
+func (v *VerifC04Framer) Iter(fr VerifC04Frame) *Iter {
+	x, ok := fr.raw.(*resultRowsFrame)
+	if !ok {
+		return nil
+	}
+	return &Iter{meta: x.meta, framer: v.f, numRows: x.numRows}
+}
+
+// IterSkipMeta builds the Iter of the skip-metadata branch of Conn.executeQuery: the columns come
+// from the result metadata of a PREPARED response, the paging state from the rows frame.
+func (v *VerifC04Framer) IterSkipMeta(fr VerifC04Frame, prepared VerifC04Frame) *Iter {
+	x, ok := fr.raw.(*resultRowsFrame)
+	p, ok2 := prepared.raw.(*resultPreparedFrame)
+	if !ok || !ok2 {
+		return nil
+	}
+	iter := &Iter{meta: x.meta, framer: v.f, numRows: x.numRows}
+	iter.meta = p.respMeta
+	iter.meta.pagingState = copyBytes(x.meta.pagingState)
+	return iter
+}
+
+// VerifC04IterErr is Iter.err (what Close would return) without closing.
+func VerifC04IterErr(it *Iter) error { return it.err }
+
+// VerifC04ParseType is parseType (metadata.go) with a silent logger.
+func VerifC04ParseType(def string) (isComposite bool, types []TypeInfo, reversed []bool, collections map[string]TypeInfo) {
+	r := parseType(def, nopLogger{})
+	return r.isComposite, r.types, r.reversed, r.collections
+}
+
+// VerifC04GetCassandraType is getCassandraType (helpers.go) with a silent logger.
+func VerifC04GetCassandraType(name string) TypeInfo {
+	return getCassandraType(name, nopLogger{})
+}
+
+// VerifC04GetApacheCassandraType is getApacheCassandraType (helpers.go).
+func VerifC04GetApacheCassandraType(class string) Type {
+	return getApacheCassandraType(class)
+}
+
+// VerifC04SplitCompositeTypes is splitCompositeTypes (helpers.go).
+func VerifC04SplitCompositeTypes(name string) []string {
+	return splitCompositeTypes(name)
+}
+
+// VerifC04MaxFrameSize is the maxFrameSize constant.
+const VerifC04MaxFrameSize = maxFrameSize
